@@ -174,6 +174,16 @@ func (ex *Exec) localCell(fr *Frame, obj types.Object) *Cell {
 			return cell
 		}
 	}
+	// a variable of the enclosing function captured by this closure
+	for i, fv := range fr.fn.FreeVars {
+		if fv.Pos() == obj.Pos() || fv.Name() == obj.Name() && !fv.Pos().IsValid() {
+			if i < len(fr.bind) {
+				if p, ok := fr.bind[i].(PtrV); ok && p.Kind == PLocal && len(p.Path) == 0 {
+					return p.Cell
+				}
+			}
+		}
+	}
 	return nil
 }
 
@@ -835,6 +845,10 @@ func (ex *Exec) specCall(call *ast.CallExpr, info *types.Info, env *SpecEnv, pc 
 		i := SignExtTo64(arg(0).(IntV).T, info.Types[call.Args[0]].Type)
 		t := info.Instances[id].TypeArgs.At(0)
 		return PtrV{Kind: PHeap, Ref: Select(env.st.get(chanLogKey(k, t)+"val", SArr(SBV(64), SRef)), i), Root: t.Underlying().(*types.Pointer).Elem()}
+	case "ctxtimeout":
+		// ctxtimeout(ctx): the duration ctx was created with by context.WithTimeout
+		iv := arg(0).(IfaceV)
+		return IntV{Select(env.st.get("ctxmeta|timeout", SArr(SBV(64), SBV(64))), iv.Pay)}
 	case "nevents":
 		name := constant.StringVal(info.Types[call.Args[0]].Value)
 		return IntV{env.st.get("ghost|ev."+name+".n", SBV(64))}
